@@ -88,7 +88,9 @@ func main() {
 	type cfg struct{ goos, goarch string }
 	cfgs := []cfg{{"", ""}}
 	if *tier == "thorough" {
-		cfgs = append(cfgs, cfg{"linux", "386"}, cfg{"windows", "amd64"})
+		// a 32-bit configuration (int width, build-tagged files); GOOS=windows is not a configuration of this
+		// repository: util/syslog_logger.go imports log/syslog, which does not exist there, so the tree does not build
+		cfgs = append(cfgs, cfg{"linux", "386"})
 	}
 	var names []string
 	var ctxs []*Ctx
